@@ -405,6 +405,32 @@ def _shortcut_by_scenario(prog, rep, sc, ds):
                         if any(src(a_) in slot_names for a_ in list(c_.args) + [k_.value for k_ in c_.keywords]):
                             handed.append(src(c_.func))
                 if handed:
+                    # a module-level helper that decides "same vector" by comparing attributes is positively not identity
+                    hf = prog.functions.get(f"{sc.module.name}:{handed[0]}") if "." not in handed[0] else None
+                    if hf is not None and len(hf.node.args.args) == 2:
+                        pa, pb = [a_.arg for a_ in hf.node.args.args]
+                        rets = [r_ for r_ in ast.walk(hf.node) if isinstance(r_, ast.Return)]
+                        stmts_ = [s_ for s_ in hf.node.body if not (isinstance(s_, ast.Expr) and isinstance(s_.value, ast.Constant))]
+
+                        def attr_eq(c_):
+                            return (isinstance(c_, ast.Compare) and len(c_.ops) == 1 and isinstance(c_.ops[0], ast.Eq) and isinstance(c_.left, ast.Attribute)
+                                    and isinstance(c_.comparators[0], ast.Attribute) and {src(c_.left.value), src(c_.comparators[0].value)} == {pa, pb})
+
+                        def attrs_only(e_):  # a test that holds for two different objects with equal attributes
+                            return attr_eq(e_) or (isinstance(e_, ast.BoolOp) and isinstance(e_.op, ast.And) and all(attr_eq(v_) for v_ in e_.values))
+
+                        if len(stmts_) == 1 and len(rets) == 1 and rets[0] is stmts_[0] and rets[0].value is not None:
+                            v_ = rets[0].value
+                            alts = v_.values if isinstance(v_, ast.BoolOp) and isinstance(v_.op, ast.Or) else [v_]
+                            # name / size / shape do not determine the elements (a view's name drops the step); other attributes might
+                            weak = [e_ for e_ in alts if attrs_only(e_) and all(c_.left.attr in ("name", "size", "shape", "rows", "cols") for c_ in ast.walk(e_) if attr_eq(c_))]
+                            if weak:
+                                by_attr_ = [c_ for c_ in ast.walk(weak[0]) if attr_eq(c_)]
+                                rep.ob("R16.3", construct, False,
+                                       f"{desc}: whether the operand is the source found so far is decided by {hf.name}(), which compares `{src(by_attr_[0])[:50]}`: attribute equality is not identity -- two different views can share a name and a size "
+                                       f"(x[0:4:2] and x[0:4:3]; A[0, 0:2] and A[0, 1:3]), so the shortcut returns one view's variables for a problem that uses both",
+                                       loc=f"{hf.module.rel}:{by_attr_[0].lineno}", detail="source-compared-by-attributes", robust=True)
+                                continue
                     rep.undecided(f"{construct} ({desc}): the operand is handed to `{handed[0]}(..)`; how the source is recorded and compared there is not followed")
                     continue
                 for fs, df, st_, term in paths:
